@@ -90,7 +90,7 @@ func VerifR10UndoLocal() {
 	}
 	// a well-nested undo/redo walk: pos is the index into contents
 	pos := nEdits
-	steps := zzvsym.IntRange("steps", 1, 4+zzvsym.Tier())
+	steps := zzvsym.IntRange("steps", 1, 4)
 	for sidx := 0; sidx < steps; sidx++ {
 		undo := zzvsym.IntRange(vName("undo", sidx), 0, 1) == 1
 		// well-nested walks only: a call on an empty stack is a no-op and
